@@ -56,6 +56,10 @@ TEXT = {
    technique='deterministic simulation: multi-node engine world; every commit event checked against an independently verified > 2/3 precommit certificate of the prescribed validator set',
    text='Commit events (committed-header store writes, committing views, committed headers handed to the state machine, finalize requests) are checked with crypto/ed25519 and math/big against the validator set the chain prescribes. Byzantine power is < 1/3 in this harness; certificates forged by >= 2/3 foreign keys and replayed headers are exercised by the single-node adversarial harness when present in harness.json.',
    note='Correct nodes run a harness consensus strategy, application and timers; the network, Byzantine behaviour and crashes are simulated; a panic of an engine goroutine kills the worker and is classified by the runner (counted as aborted for properties other than C09). Runs are sampled, not enumerated.', ref='4/C01'),
+ 'C08': dict(
+   technique='deterministic simulation: the real round state machine alone on its channel interface, with the mirror, timers, consensus strategy and driver played by a seeded scheduler; trace checked against an executable reference of the round rules',
+   text='Seeded search over event orders the channel interface permits (view deliveries, timer expiries, strategy answers incl. late ones, jump-aheads, catch-up) within a legal-environment contract; the reference model checks: finalize only after a shown > 2/3 precommit quorum (or a supplied committed header), next height only after the finalization is answered and stored, round changes only with a cause, at most one DecidePrecommit per round and a due one not omitted, entrances strictly increasing, strategy calls and votes for the round they were issued in, vote targets from the strategy only.',
+   note='The simulated mirror is trusted to respect the contract in DESIGN.md (section 4/C08): truthful summaries, growing views, honest peers. Runs that end in a state machine panic are counted as aborted here and reported under C09.', ref='4/C08'),
  'C12': dict(
    technique='deterministic simulation: real StandardRoundTimer on a fake clock, seeded statement-level interleaving of its goroutine with a caller issuing start/cancel/restart sequences',
    text='Part (b) of the property (production round timer): seeded search over caller scripts and over every interleaving point of the timer goroutine (selects with seeded pre-pass, yields between statements) on the synctest fake clock; oracle: no panic, cancelled never elapses, never early, every start returns, armed timers fire. Part (a) (state-machine timer discipline) is decided by the state-machine harness when present in harness.json.',
